@@ -20,9 +20,18 @@ pub const STREAM_DATA: &[u8] = b"BASE-STREAM-DATA-0123456789";
 /// base file: model ids 1 (raw dict), 2 (compressed dict), 3 (stream); catalog 4, pages 5.
 /// layout 0: single revision, xref stream; layout 1: classic table original (object 2 direct,
 /// stale value) + xref-stream update that moves object 2 into an object stream.
+/// layouts 2, 3: layouts 0, 1 behind a 66 KB comment (every offset needs three bytes); layout 4: layout 0 behind a
+/// 16.8 MB comment (four bytes) - the field widths of the cross-reference stream the writer emits depend on them.
 pub fn base_file(hdr: usize, layout: usize) -> Vec<u8> {
     let prefix: Vec<u8> = (0..hdr).map(|i| b"junk\n\x00\xff"[i % 7]).collect();
     let mut d = Doc::new(&prefix);
+    let filler = match layout { 2 | 3 => 66_000, 4 => 16_800_000, _ => 0 };
+    if filler > 0 {
+        d.buf.push(b'%');
+        d.buf.extend((0..filler).map(|i| b"filler comment "[i % 15]));
+        d.buf.push(b'\n');
+    }
+    let layout = match layout { 2 | 4 => 0, 3 => 1, l => l };
     let mut e: Vec<(u64, XEntry)> = vec![(0, XEntry::Free { next: 0, gen: 65535 })];
     let o = d.obj(1, 0, b"<< /Z 1 >>");
     e.push((1, XEntry::InUse { off: o, gen: 0 }));
@@ -36,7 +45,7 @@ pub fn base_file(hdr: usize, layout: usize) -> Vec<u8> {
         let o = d.objstm(6, &[(2, b"<< /Z 1 >>".to_vec())], Filter::Flate, " ", b"\n", true, "");
         e.push((6, XEntry::InUse { off: o, gen: 0 }));
         e.push((2, XEntry::Compressed { container: 6, idx: 0 }));
-        d.xref_stream(7, &e, 8, [1, 2, 1], "/Root 4 0 R", None, Split::Min, Filter::None);
+        d.xref_stream(7, &e, 8, if filler > 0 { [1, 4, 1] } else { [1, 2, 1] }, "/Root 4 0 R", None, Split::Min, Filter::None);
     } else {
         let o = d.obj(2, 0, b"<< /Stale 1 >>");
         e.push((2, XEntry::InUse { off: o, gen: 0 }));
@@ -418,7 +427,14 @@ pub fn run(cases_path: &str, report_path: &str, opts: &[String]) {
         if nontrivial(case) {
             rep.nontrivial += 1;
         }
-        let layouts: Vec<usize> = if both_layouts { vec![0, 1] } else { vec![ci % 2] };
+        // quick: one of the four small layouts per case; thorough: both narrow layouts, one wide one, and the 16.8 MB one now and then
+        let mut layouts: Vec<usize> = if both_layouts { vec![0, 1, 2 + ci % 2] } else { vec![ci % 4] };
+        if both_layouts && ci % 997 == 0 || !both_layouts && ci % 4999 == 0 {
+            layouts.push(4);
+        }
+        if let Some(k) = opts.iter().position(|o| o == "--layout") {
+            layouts = vec![opts[k + 1].parse().unwrap()];
+        }
         for l in layouts {
             replay_case(&mut rep, case, ci, l, &tmp);
         }
